@@ -67,6 +67,28 @@ var workloads = []workload{
 	{"indexflush5", func() *store.Options {
 		return syncedOpts().WithIndexOptions(store.DefaultIndexOptions().WithFlushBufferSize(4096).WithCacheSize(64).WithFlushThld(1).WithSyncThld(2).WithBulkPreparationTimeout(time.Hour))
 	}, commitN(5, func(i int) int { return 5 })},
+	// index flushed after every transaction, synced after the 3rd flush only, 256-byte chunks: the nodes log of the index
+	// rotates between unsynced flushes (a finished chunk is flushed, not fsynced)
+	{"indexflush-rotate5", func() *store.Options {
+		return syncedOpts().WithFileSize(256).WithIndexOptions(store.DefaultIndexOptions().WithFlushBufferSize(4096).WithCacheSize(64).WithFlushThld(1).WithSyncThld(3).WithMaxNodeSize(430).WithBulkPreparationTimeout(time.Hour))
+	}, func(st *store.ImmuStore, ack func(h *store.TxHeader)) {
+		ctx := context.Background()
+		for i := 0; i < 5; i++ {
+			tx, err := st.NewWriteOnlyTx(ctx)
+			if err != nil {
+				panic(err)
+			}
+			tx.Set([]byte(fmt.Sprintf("key-%02d-%s", i, strings.Repeat("k", 16))), nil, []byte(fmt.Sprintf("v%d", i)))
+			h, err := tx.Commit(ctx)
+			if err != nil {
+				panic(err)
+			}
+			ack(h)
+			if err := st.WaitForIndexingUpto(ctx, h.ID); err != nil {
+				panic(err)
+			}
+		}
+	}},
 	{"embedded-prealloc4", func() *store.Options {
 		return syncedOpts().WithEmbeddedValues(true).WithPreallocFiles(true).WithFileSize(512)
 	}, commitN(4, func(i int) int { return 30 })},
@@ -291,6 +313,10 @@ func checkImage(w workload, r result, img *crashfs.Image, dir string) (sig, deta
 	fp := storeh.Fingerprint(st)
 	if err := st.Close(); err != nil {
 		st = nil
+		if msg := err.Error(); strings.Contains(msg, "returned: [") &&
+			strings.Trim(strings.ReplaceAll(msg[strings.LastIndex(msg, "returned: [")+len("returned: ["):], "singleapp: already closed", ""), " ]") == "" {
+			return "close-after-recovery-failed err=already-closed", err.Error()
+		}
 		return "close-after-recovery-failed", err.Error()
 	}
 	st, err = store.Open(dir, w.opts())
@@ -372,6 +398,9 @@ func recoverUnderJournal(w workload, dir string) ([]vos.Op, string) {
 
 // checkJournal enumerates and checks every crash image of one recorded execution.
 func checkJournal(w workload, res result, seen map[[32]byte]bool, opts crashfs.Options) map[string]any {
+	for len(recoveryJobs) > 0 { // images of an earlier journal whose time share ended: they belong to that journal's workload
+		<-recoveryJobs
+	}
 	kinds := map[string]int{}
 	for _, o := range res.ops {
 		kinds[o.Kind]++
@@ -749,8 +778,14 @@ func main() {
 		fmt.Println(" ", string(bs))
 		sched.Cleanup()
 	}
-	for _, w := range wls {
+	fullDeadline := c.Deadline
+	for wi, w := range wls {
 		seen[w.name] = map[[32]byte]bool{}
+		// fair share: a workload gets at most its part of what is left (a large journal must not starve the others)
+		c.Deadline = fullDeadline
+		if left := time.Until(fullDeadline); left > 0 {
+			c.Deadline = time.Now().Add(left / time.Duration(len(wls)-wi))
+		}
 		if c.Expired() {
 			c.CapHit("workload " + w.name + " not explored")
 			continue
@@ -778,6 +813,7 @@ func main() {
 			c.Sample(map[string]any{"workload": w.name, "files_written": files, "first_ops": fmt.Sprint(opsHead(res.ops, 12))})
 		}
 	}
+	c.Deadline = fullDeadline
 	c.Set("quiesce_waits_5ms", quiesceWaits)
 	c.Set("quiesce_timeouts", quiesceTimeouts)
 	c.Set("workloads", summaries)
